@@ -70,8 +70,9 @@ ASSUMPTIONS = [
     "'sent' after Connection.send returned; the hook's phases.log/crashes.log are trusted",
     "'search time remains' is read off the code's own account (maximum_search_time of the task at the restart must be > 0) and cross-checked "
     "against the wall clock of the start events with 0.5 s slack",
-    "the watchdog (real: 300 s, retry 600 s; scripted: T + 20 s per sequence, retry x3) stands in for 'does not return'; a timeout "
-    "that does not reproduce is counted as anomaly watchdog-not-reproduced",
+    "the watchdog (real: 300 s, retry 900 s, and then only if the workers wrote nothing to phases.log for 120 s or more workers were started "
+    "than the budget has seconds; scripted: T + 20 s per sequence, retry x3) stands in for 'does not return'; a timeout that does not "
+    "reproduce is counted as anomaly watchdog-not-reproduced",
     "a worker that hangs without dying blocks get_result for ever (no timeout in the master): the statement quantifies over worker deaths, "
     "so this is recorded as anomaly master-blocks-on-hung-worker, not as a violation",
     "a result that was delivered but is not reported as OK (success lost) is not forbidden by the statement: anomaly only",
@@ -227,7 +228,7 @@ def scripted_directed_cases():
         if st in EXTRA_DYING:
             cases.append({"script": [st], "then": "repeat", "T": 3, "delay": 0.3, "tag": "extra"})
     for h in HANGS:
-        for t in (5, -1):
+        for t in (30, -1):  # 30: the restart that leads to the hang step must fit even on a very loaded machine
             cases.append({"script": ["die0", h] if t > 0 else [h], "then": "send-ok", "T": t, "delay": 0.3, "tag": "hang"})
     return cases
 
@@ -393,7 +394,8 @@ def run_real_case(ctx, case, proj, idx, seeded_break=None):
     label = f"real:{case['phase']}:n{case['n']}:{case['budget_kind']}"
     res = None
     attempts = []
-    for attempt, timeout in enumerate((300, 600)):
+    stalled_for = None
+    for attempt, timeout in enumerate((300, 900)):
         work = ctx.scratch / f"real{idx}_{attempt}"
         state = work / "state"
         state.mkdir(parents=True, exist_ok=True)
@@ -412,6 +414,10 @@ def run_real_case(ctx, case, proj, idx, seeded_break=None):
         attempts.append({"timeout": res["timeout"], "wall": res.get("parent_wall_s")})
         if not res["timeout"]:
             break
+        try:
+            stalled_for = time.time() - (state / "phases.log").stat().st_mtime
+        except OSError:
+            stalled_for = float(timeout)
         _kill_leftovers(state)
     phases = [ln.split() for ln in res["_phases"].splitlines() if len(ln.split()) == 2]
     crashes = [ln.split() for ln in res["_crashes"].splitlines() if len(ln.split()) == 2]
@@ -422,10 +428,20 @@ def run_real_case(ctx, case, proj, idx, seeded_break=None):
         last = phases[-1][1] if phases else "before-import"
         c["phases_tail"] = phases[-8:]
         c["crashes"] = crashes
+        T = case["budget"].get("maximum_search_time", -1)
+        workers = len({p for p, _ in phases})
+        # a watchdog on a loaded machine proves nothing by itself: it counts only if the workers stopped making progress
+        # (nothing written to phases.log for 120 s: the master waits for nobody) or more workers were started than the
+        # budget can pay for (each restart costs at least one second of search time)
+        if stalled_for is not None and stalled_for < 120 and workers <= max(T, 0) + 1:
+            ctx.inconclusive_because(f"{label}: watchdog fired twice (300 s, 900 s) but the workers were still making progress "
+                                     f"({workers} worker(s), last phase {last}, load {os.getloadavg()[0]:.0f})")
+            return
         ctx.ok(cls=[f"real:{case['phase']}:n{case['n']}:{case['budget_kind']}", "real:no-return"])
         ctx.witness(f"no-return:{case['phase']}",
-                    f"[{label}] run_pynguin_with_master_worker did not return within 300 s and, re-tried, 600 s "
-                    f"(budget {case['budget']}, {len(crashes)} injected crash(es), last phase reached: {last})", c)
+                    f"[{label}] run_pynguin_with_master_worker did not return within 300 s and, re-tried, 900 s "
+                    f"(budget {case['budget']}, {len(crashes)} injected crash(es), {workers} worker(s) started, last phase reached: {last}, "
+                    f"no progress for {stalled_for:.0f} s)", c)
         return
     if len(attempts) > 1:
         ctx.anomaly("watchdog-not-reproduced:real")
@@ -619,7 +635,17 @@ def scripted_child(spec_path, out_path):
     scratch = Path(spec["scratch"])
 
     def on_alarm(signum, frame):
-        raise _Watchdog()
+        # plain cases: one shot at the bound.  Cases with a hang step: the timer ticks every 0.5 s; the watchdog fires
+        # 2 s after the stub logged that it hangs (the master is then blocked in recv), or at the bound if it never did.
+        w = _CUR.get("watch")
+        if w is None:
+            raise _Watchdog()
+        now = time.time()
+        if w["hang_seen"] is None and " hang " in _read(Path(_CUR["log"])):
+            w["hang_seen"] = now
+        if (w["hang_seen"] is not None and now - w["hang_seen"] >= 2.0) or now - w["t0"] >= w["bound"]:
+            signal.setitimer(signal.ITIMER_REAL, 0)
+            raise _Watchdog()
 
     signal.signal(signal.SIGALRM, on_alarm)
     with open(out_path, "a") as out:
@@ -638,7 +664,12 @@ def scripted_child(spec_path, out_path):
             out.write(json.dumps({"begin": case["i"]}) + "\n")
             out.flush()
             t0 = time.time()
-            signal.setitimer(signal.ITIMER_REAL, case["bound"])
+            if set(HANGS) & set(case["script"]) or case["then"] in HANGS:
+                _CUR["watch"] = {"t0": t0, "bound": case["bound"], "hang_seen": None}
+                signal.setitimer(signal.ITIMER_REAL, 0.5, 0.5)
+            else:
+                _CUR["watch"] = None
+                signal.setitimer(signal.ITIMER_REAL, case["bound"])
             try:
                 rc = run_pynguin_with_master_worker(cfg)
                 signal.setitimer(signal.ITIMER_REAL, 0)
@@ -680,9 +711,11 @@ def scripted_child(spec_path, out_path):
 # (b) parent side
 # =================================================================================================
 def _bound(case, factor=1):
-    if set(HANGS) & set(case["script"]) or case["then"] in HANGS:
-        return 4.0
     return (max(case["T"], 0) + 20) * factor
+
+
+def _hang_logged(rec):
+    return any(len(x) == 4 and x[2] == "hang" for x in (ln.split() for ln in rec.get("worker_log", "").splitlines()))
 
 
 def _run_driver(ctx, cases, tag, seeded_break, factor=1):
@@ -754,7 +787,7 @@ def run_scripted(ctx, cases, tag, seeded_break=None, parallel=6):
         # watchdog hits are re-tried alone with a 3x bound (machine load)
         for c in group:
             r = done.get(c["i"])
-            if r and r.get("timeout") and _bound(c) > 4.0:
+            if r and r.get("timeout") and not _hang_logged(r):
                 r2, _, _ = _run_driver(ctx, [c], f"{tag}_{gi}_retry{c['i']}", seeded_break, factor=3)
                 if c["i"] in r2:
                     r2[c["i"]]["first_attempt_timed_out"] = True
